@@ -150,8 +150,31 @@ class _Collector:
         self.error = None
 
 
-def _validate_chunk(spec, wd, execs, want, tag):
+def _abs_cfg(spec, wd):
+    """trace cfg with only the abstract-monitor invariants (for tail-split executions)"""
+    src = os.path.join(wd, spec.trace_cfg)
+    dst = spec.trace_cfg.replace(".cfg", "_Abs.cfg")
+    out, in_inv = [], False
+    for ln in open(src).read().splitlines():
+        st = ln.strip()
+        if st.startswith("INVARIANT"):
+            in_inv = True
+            names = [n for n in st.split()[1:] if n.startswith("Abs")]
+            out.append("INVARIANTS " + " ".join(names))
+            continue
+        if in_inv and st and not st.split()[0].isupper():
+            out.append("  " + " ".join(n for n in st.split() if n.startswith("Abs")))
+            continue
+        in_inv = False
+        out.append(ln)
+    with open(os.path.join(wd, dst), "w") as f:
+        f.write("\n".join(out) + "\n")
+    return dst
+
+
+def _validate_chunk(spec, wd, execs, want, tag, abs_only=False):
     col = _Collector()
+    cfg = _abs_cfg(spec, wd) if abs_only else spec.trace_cfg
     remaining = list(execs)
     rounds = 0
     while remaining and rounds < 6:
@@ -165,7 +188,7 @@ def _validate_chunk(spec, wd, execs, want, tag):
                 for r in ex:
                     f.write(json.dumps(r) + "\n")
                     n += 1
-        r = core.run_tlc(wd, spec.name + "_Trace.tla", spec.trace_cfg, workers=1, timeout=spec.trace_timeout,
+        r = core.run_tlc(wd, spec.name + "_Trace.tla", cfg, workers=1, timeout=spec.trace_timeout,
                          env_extra={"TRACE": path}, heap="3g", meta_tag=tag)
         col.tlc.append((r, "trace validation of %d recorded executions against %s_Trace" % (len(remaining), spec.name)))
         if r.error and not r.violated and not r.post_false:
@@ -216,7 +239,12 @@ def _validate_chunk(spec, wd, execs, want, tag):
             prop = spec.inv_props.get(inv, spec.primary)
             what = "invariant %s of %s_Trace is violated by a recorded execution of scenario %s %s at its line %d: %s" % (
                 inv, spec.name, spec.scenario, params_key(params), rel + 1, json.dumps(ex[min(rel, len(ex) - 1)])[:400])
-            if prop in want:
+            if ex[0].get("tailsplit") and not inv.startswith("Abs"):
+                # a tail-split execution cuts slices in two (the fences / plain accesses of the second half are logged
+                # with a later event): the specification's own state is not meaningful there, only the monitors are
+                col.notes.append("tail-split execution of %s %s judged by the abstract monitors only (%s not evaluated)" % (
+                    spec.scenario, params_key(params), inv))
+            elif prop in want:
                 col.violations.append(("%s/%s/%s" % (inv, spec.scenario, _scen_only(params, spec)), what,
                                        {"scenario": spec.scenario, "params": params, "choices": end.get("choices"),
                                         "sched": end.get("sched"), "invariant": inv, "line": rel + 1, "events": ex}))
@@ -255,7 +283,8 @@ def validate_traces(rep, spec, wd, execs, want, tag="trace"):
                 tail_chunks.add(len(chunks))
             chunks.append(cur)
     with ThreadPoolExecutor(max_workers=min(6, max(1, len(chunks)))) as pool:
-        cols = list(pool.map(lambda a: _validate_chunk(spec, wd, a[1], want, "%s%d" % (tag, a[0])), enumerate(chunks)))
+        cols = list(pool.map(lambda a: _validate_chunk(spec, wd, a[1], want, "%s%d" % (tag, a[0]), abs_only=a[0] in tail_chunks),
+                             enumerate(chunks)))
     sites = {}
     total_ok = 0
     for ci, col in enumerate(cols):
